@@ -164,7 +164,7 @@ NEAR_MISSES = [
     '{1: 2 3: 4}', '[1,, 2]', '(,)', '[,]', '{:}', '{1}', '1]', ')', '', '# only a comment', '[1, 2] 3', "'a' b'c'",
     'True False', 'None()', '[1](2)', '1 = 2', '- -1', '-', '[-]', '1e', '0x', '1__0', '07', "'unterminated", '"""open',
     '[1, 2,)', '(1,]', '[}', "{'a': 1,)", '[(1, 2,], 3]', '(]', '{]', '[1,}', '(1, 2,}', '{)', "{'a': 1,]", '[[],)',
-    '{[1]: 2}', '{{}: 1}', '@', '%', '@f(1)', '@f(', '@/f', '@a//f', '%a.', 'not 1', '1 or 2', '~1', '[*a]', '(1 for x in y)',
+    '{[1]: 2}', '{{}: 1}', '[7 % 2]', '(7 % 2)', "{'a': 7 % 2}", "['rate' % 3]", "[1 '%s']", "[1, 2 '50%']", '@', '%', '@f(1)', '@f(', '@/f', '@a//f', '%a.', 'not 1', '1 or 2', '~1', '[*a]', '(1 for x in y)',
 ]
 
 
@@ -237,6 +237,14 @@ def run_impl(case):
     out['python'] = {'v': parsedom.enc_pval(v, None)} if case['kind'] == 'lit' else None
   except Exception as e:  # pylint: disable=broad-except
     out['python'] = {'err': type(e).__name__}
+  # the same text through the public `parse_value` (what `config_str` uses to decide what has a literal form)
+  if '@' not in case['value_text'] and '%' not in case['value_text']:
+    import sys
+    gin = sys.modules.get('gin') or core.fresh_gin()
+    try:
+      out['pv'] = {'v': parsedom.enc_pval(gin.config.parse_value(case['value_text'].lstrip(' \t')), None)}
+    except Exception as e:  # pylint: disable=broad-except
+      out['pv'] = {'err': parsedom.family(e)}
   return out
 
 
@@ -276,11 +284,19 @@ def oracle(case, impl):
     got = impl['stmts'][0][4]
     if _canon_dicts(got) != _canon_dicts(py['v']):
       return f'{case["value_text"]!r} parsed to {got} but Python evaluates it to {py["v"]}'
+    pv = impl.get('pv')
+    if pv is not None and _canon_dicts(pv.get('v')) != _canon_dicts(py['v']):
+      return f'parse_value({case["value_text"]!r}) gave {pv} but Python evaluates the text to {py["v"]}'
     return None
   if impl['err'] is None and impl['stmts']:
     return f'text outside the literal grammar was accepted: {case["value_text"]!r} -> {impl["stmts"]}'
   if impl['err'] is not None and not impl['err'].startswith('syntax'):
     return f'rejected with {impl["err"]} instead of a syntax error: {case["value_text"]!r}'
+  pv = impl.get('pv')
+  if pv is not None and 'v' in pv:
+    return f'parse_value accepted text outside the literal grammar: {case["value_text"]!r} -> {pv["v"]}'
+  if pv is not None and not pv['err'].startswith('syntax') and not (impl['err'] or '').startswith('other'):
+    return f'parse_value rejected {case["value_text"]!r} with {pv["err"]} instead of a syntax error'
   return None
 
 
@@ -306,7 +322,7 @@ def shrink(case):
 def classify(case, impl, model, why_oracle, why_model, findings):
   """D9: an unhashable dict key surfaces as a bare TypeError."""
   for f in findings:
-    if f['id'] == 'D9' and impl.get('err') == 'other:TypeError':
+    if f['id'] == 'D9' and impl.get('err') == 'other:TypeError' and 'unhashable type' in impl.get('err_msg', ''):
       t = case['value_text']
       if '{[' in t or '{{' in t:
         return 'D9'
